@@ -281,9 +281,12 @@ Definition prog (bk : backend) (e : ex) (n0 : nat) : program :=
 Inductive column :=
 | ColScalar (e : ex)                                           (* an event-level value *)
 | ColVec (c : collref) (g : guard) (body : bexp)               (* e.Coll("bank")[.Where(p)].Select(lambda x: body) *)
-| ColFirst (c : collref) (g : guard) (body : pa) (line : string).
+| ColFirst (c : collref) (g : guard) (body : pa) (line : string)
     (* e.Coll("bank")[.Where(p)].Select(lambda x: body).First()  (or ....First().m()): the first passing element's
        value; `line` is the emitted throw statement (its message quotes the query text) *)
+| ColVec2 (c1 : collref) (g1 : guard) (c2 : collref) (g2 : guard) (body : bexp).
+    (* e.C1("b1")[.Where(p1)].Select(lambda o: e.C2("b2")[.Where(p2)].Select(lambda x: body)): one vector per passing
+       element of the first collection (the second collection is retrieved inside the outer loop) *)
 Definition row := list (string * column).                      (* branch name, column *)
 
 Fixpoint ex_size (e : ex) : nat :=
@@ -294,12 +297,20 @@ Fixpoint ex_size (e : ex) : nat :=
   | EIf c a b => S (ex_size c + ex_size a + ex_size b)
   end.
 Definition col_size (c : column) : nat :=
-  match c with ColScalar e => ex_size e | ColVec _ g body => 2 + gsize g + nifs body | ColFirst _ g _ _ => 3 + gsize g end.
+  match c with
+  | ColScalar e => ex_size e | ColVec _ g body => 2 + gsize g + nifs body | ColFirst _ g _ _ => 3 + gsize g
+  | ColVec2 _ g1 _ g2 body => 4 + gsize g1 + gsize g2 + nifs body
+  end.
+(* number of 2-D columns: each has one local vector, named after all class members *)
+Definition col_nts (c : column) : nat := match c with ColVec2 _ _ _ _ _ => 1 | _ => 0 end.
 Fixpoint row_size (r : row) : nat := match r with [] => 0 | (_, c) :: t => col_size c + row_size t end.
 
 Definition vec_type (ty : string) : string := "std::vector<" +++ ty +++ ">".
 Definition col_type (c : column) : string :=
-  match c with ColScalar e => ex_type e | ColVec _ _ body => vec_type (btype body) | ColFirst _ _ body _ => pa_type body end.
+  match c with
+  | ColScalar e => ex_type e | ColVec _ _ body => vec_type (btype body) | ColFirst _ _ body _ => pa_type body
+  | ColVec2 _ _ _ _ body => vec_type (vec_type (btype body))
+  end.
 
 (* class variable of column k: unique_name(name, is_class_var=True) after all per-event names *)
 Definition mem_name (name : string) (idx : nat) : string := nm ("_" +++ cident name) idx.
@@ -320,9 +331,28 @@ Definition tfirst_loop (c : collref) (g : guard) (body : pa) (mem : string) (n :
   SFor (iv_name n) (CDeref (CVar (vcv_name c n)))
        (loop_block (iv_name n) (c_arrow c) g n [] (one_stmt (tfirst_capture c g body mem n))).
 
-(* code of one column in the event block: declarations, statements, next index *)
-Definition tcol (idiom : string) (c : column) (mem : string) (n : nat) : list decl * stmts * nat :=
+(* 2-D: the local vector of one outer element is ntuple<k>; the second collection is retrieved, looped over and the
+   local vector pushed onto the column inside the (guarded) block of the outer loop *)
+Definition nt_name (k : nat) : string := nm "ntuple" k.
+Definition c2_at (n : nat) (g1 : guard) : nat := S (S n) + gsize g1.
+Definition tvec2_inner (idiom : string) (c2 : collref) (g2 : guard) (body : bexp) (mem nt : string) (m : nat) : stmts :=
+  SCons (SFetch idiom (vcv_name c2 m) (c_ctype c2) (c_bank c2) (fetch_lines idiom (c_ctype c2) (c_bank c2)))
+        (SCons (tvec_loop c2 g2 body nt m) (one_stmt (SPush mem None (CVar nt)))).
+Definition tvec2_decls (c2 : collref) (body : bexp) (nt : string) (m : nat) : list decl :=
+  [{| d_type := c_ctype c2; d_name := vcv_name c2 m; d_init := None |}; {| d_type := vec_type (btype body); d_name := nt; d_init := None |}].
+Definition tvec2_loop (idiom : string) (c1 : collref) (g1 : guard) (c2 : collref) (g2 : guard) (body : bexp) (mem nt : string) (n : nat) : stmt :=
+  SFor (iv_name n) (CDeref (CVar (vcv_name c1 n)))
+       (loop_block (iv_name n) (c_arrow c1) g1 n (tvec2_decls c2 body nt (c2_at n g1))
+                   (tvec2_inner idiom c2 g2 body mem nt (c2_at n g1))).
+
+(* code of one column in the event block: declarations, statements, next index; ntk = index of the next local vector *)
+Definition tcol (idiom : string) (c : column) (mem : string) (ntk n : nat) : list decl * stmts * nat :=
   match c with
+  | ColVec2 c1 g1 c2 g2 body =>
+      ([{| d_type := c_ctype c1; d_name := vcv_name c1 n; d_init := None |}],
+       SCons (SFetch idiom (vcv_name c1 n) (c_ctype c1) (c_bank c1) (fetch_lines idiom (c_ctype c1) (c_bank c1)))
+             (one_stmt (tvec2_loop idiom c1 g1 c2 g2 body mem (nt_name ntk) n)),
+       n + (4 + gsize g1 + gsize g2 + nifs body))
   | ColScalar e => let '(ds, ss, _, n') := te idiom e n in (ds, ss, n')
   | ColVec cr g body =>
       ([{| d_type := c_ctype cr; d_name := vcv_name cr n; d_init := None |}],
@@ -337,14 +367,16 @@ Definition tcol (idiom : string) (c : column) (mem : string) (n : nat) : list de
   end.
 
 (* all columns in order; member k is mem_name name_k (nf + k) *)
-Fixpoint trow (idiom : string) (r : row) (nf k n : nat) : list decl * stmts :=
+Fixpoint trow (idiom : string) (r : row) (nf k ntk n : nat) : list decl * stmts :=
   match r with
   | [] => ([], SNil)
   | (name, c) :: t =>
-      let '(ds, ss, n') := tcol idiom c (mem_name name (nf + k)) n in
-      let '(dt, st) := trow idiom t nf (S k) n' in
+      let '(ds, ss, n') := tcol idiom c (mem_name name (nf + k)) ntk n in
+      let '(dt, st) := trow idiom t nf (S k) (col_nts c + ntk) n' in
       (ds ++ dt, app_stmts ss st)
   end.
+(* the first local vector: after the class members and one more name *)
+Definition nt_first (nf : nat) (r : row) : nat := S (nf + List.length r).
 (* after the loops: the scalar columns are stored, in column order *)
 Fixpoint trow_sets (idiom : string) (r : row) (nf k n : nat) : stmts :=
   match r with
@@ -354,6 +386,7 @@ Fixpoint trow_sets (idiom : string) (r : row) (nf k n : nat) : stmts :=
       | ColScalar e => let '(_, _, ce, n') := te idiom e n in SCons (SSet (mem_name name (nf + k)) None ce) (trow_sets idiom t nf (S k) n')
       | ColVec _ g body => trow_sets idiom t nf (S k) (S (S n) + gsize g + nifs body)
       | ColFirst _ g _ _ => trow_sets idiom t nf (S k) (S (S (S n)) + gsize g)
+      | ColVec2 _ g1 _ g2 body => trow_sets idiom t nf (S k) (n + (4 + gsize g1 + gsize g2 + nifs body))
       end
   end.
 Fixpoint trow_clears (r : row) (nf k : nat) : stmts :=
@@ -362,7 +395,7 @@ Fixpoint trow_clears (r : row) (nf k : nat) : stmts :=
   | (name, c) :: t =>
       match c with
       | ColScalar _ | ColFirst _ _ _ _ => trow_clears t nf (S k)
-      | ColVec _ _ _ => SCons (SClear (mem_name name (nf + k))) (trow_clears t nf (S k))
+      | ColVec _ _ _ | ColVec2 _ _ _ _ _ => SCons (SClear (mem_name name (nf + k))) (trow_clears t nf (S k))
       end
   end.
 Fixpoint row_members (r : row) (nf k : nat) : list member :=
@@ -373,7 +406,7 @@ Fixpoint row_members (r : row) (nf k : nat) : list member :=
 
 Definition prog_row (bk : backend) (r : row) (n0 : nat) : program :=
   let nf := n0 + row_size r in
-  let '(ds, ss) := trow (b_idiom bk) r nf 0 n0 in
+  let '(ds, ss) := trow (b_idiom bk) r nf 0 (nt_first nf r) n0 in
   {| p_members := row_members r nf 0;
      p_tree := b_tree bk;
      p_branches := map (fun m => {| br_name := fst (fst m); br_var := m_name (snd m) |}) (combine r (row_members r nf 0));
@@ -528,8 +561,30 @@ Fixpoint first_loop (ev : event) (ty : string) (body : pa) (ps : guard) (l : lis
                         end
               else first_loop ev ty body ps r found
   end.
+(* 2-D: for every passing element of the first collection, in order, the vector column of the second collection (which
+   is retrieved then: a missing second bank is a fault only when an outer element passes) *)
+Definition dvec_of (ev : event) (cr : collref) (ps : guard) (body : bexp) : res value :=
+  match assoc_ss (c_ctype cr, c_bank cr) (ev_colls ev) with
+  | None => RFault FRetrieve
+  | Some (VVec l) => rdo vs <- vec_loop ev (btype body) body ps l []; ROk (VVec vs)
+  | Some VNull => RFault FNullDeref
+  | Some _ => RStuck (KType "the bank does not hold a collection")
+  end.
+Fixpoint vec2_loop (ev : event) (g1 : guard) (c2 : collref) (g2 : guard) (body : bexp) (l : list value) (acc : list value) : res (list value) :=
+  match l with
+  | [] => ROk acc
+  | v :: r => rdo b <- gpasses ev v g1;
+              if b then rdo x <- dvec_of ev c2 g2 body; vec2_loop ev g1 c2 g2 body r (acc ++ [x]) else vec2_loop ev g1 c2 g2 body r acc
+  end.
 Definition dcol (ev : event) (c : column) : res value :=
   match c with
+  | ColVec2 c1 g1 c2 g2 body =>
+      match assoc_ss (c_ctype c1, c_bank c1) (ev_colls ev) with
+      | None => RFault FRetrieve
+      | Some (VVec l) => rdo vs <- vec2_loop ev g1 c2 g2 body l []; ROk (VVec vs)
+      | Some VNull => RFault FNullDeref
+      | Some _ => RStuck (KType "the bank does not hold a collection")
+      end
   | ColScalar e => rdo v <- de ev e; ROk (conv (ex_type e) v)
   | ColVec cr ps body =>
       match assoc_ss (c_ctype cr, c_bank cr) (ev_colls ev) with
@@ -707,6 +762,13 @@ Definition d_col (s : sexp) : option (string * column) :=
       | Some ar', Some ps', Some b' =>
           Some (name, ColVec {| c_base := base; c_ctype := ct; c_bank := bank; c_arrow := ar' |} ps' b')
       | _, _, _ => None
+      end
+  | SList [SAtom name; SList [SAtom "vec2"; SAtom base1; SAtom ct1; SAtom bank1; ar1; SList ps1; SAtom base2; SAtom ct2; SAtom bank2; ar2; SList ps2; b]] =>
+      match d_bool ar1, d_guard ps1, d_bool ar2, d_guard ps2, d_bexp b with
+      | Some a1, Some g1, Some a2, Some g2, Some b' =>
+          Some (name, ColVec2 {| c_base := base1; c_ctype := ct1; c_bank := bank1; c_arrow := a1 |} g1
+                              {| c_base := base2; c_ctype := ct2; c_bank := bank2; c_arrow := a2 |} g2 b')
+      | _, _, _, _, _ => None
       end
   | SList [SAtom name; SList [SAtom "first"; SAtom base; SAtom ct; SAtom bank; ar; SList ps; b; SAtom line]] =>
       match d_bool ar, d_guard ps, d_pa b with
